@@ -720,6 +720,12 @@ func checkFile(b []byte, eol string, encrypted bool) *checked {
 					}
 					got = string(b[e.a:end])
 				}
+				if ok && nr == e.nr {
+					// right object, wrong generation: the entry and the object header disagree
+					fail("inuse-generation", "entry obj %d has generation %d but the object header at offset %d says %q", e.nr, e.b, e.a, got)
+					located[e.a] = true
+					continue
+				}
 				fail("inuse-offset", "entry obj %d gen %d says offset %d, found %q there", e.nr, e.b, e.a, got)
 				continue
 			}
